@@ -10,7 +10,7 @@ extern real_t FN(langs)(char *, SuperMatrix *);
 /* ------------------------------------------------------------------ vectors x, y (embedded in poisoned buffers) */
 #define VPAD 8
 typedef struct { val_t *raw; val_t *v; int len, inc; long rawlen; } vec_t;
-static vec_t VX, VY, VC;
+static TLS vec_t VX, VY, VC;
 static void vec_set(vec_t *V, char *s)
 {
     /* vec <len> <inc> values...  : logical length len, stride inc (> 0) */
@@ -41,7 +41,7 @@ static void vec_json(const char *key, const vec_t *V)
 }
 
 /* ------------------------------------------------------------------ pending argument corruption (C18) */
-static char g_corrupt[8][32]; static int g_ncorrupt;
+static TLS char g_corrupt[8][32]; static TLS int g_ncorrupt;
 static int has_corr(const char *name) { for (int i = 0; i < g_ncorrupt; i++) if (!strcmp(g_corrupt[i], name)) return 1; return 0; }
 typedef struct { SuperMatrix A, B, X, L, U; DNformat Bs, Xs; superlu_options_t opt; long lwork; char eq; real_t r0, c0; int usework; } saved_t;
 static void corr_matrix(SuperMatrix *M, const char *pfx, int issq)
@@ -353,7 +353,7 @@ static void call_ldperm(char *args)
 /* ------------------------------------------------------------------ readers (C16) */
 /* expected content of the file about to be read (echoed into the trace; values go through the same conversion to the
  * arithmetic type as any caller data) */
-static int EXn = -1; static long EXnnz; static int *EXi, *EXj; static val_t *EXv;
+static TLS int EXn = -1; static TLS long EXnnz; static TLS int *EXi, *EXj; static TLS val_t *EXv;
 static void cmd_expect(char *s)
 {
     EXn = (int)rdint(&s); EXnnz = rdint(&s);
@@ -403,7 +403,7 @@ static void call_read(char *args)
 #if defined(T_D) || defined(T_Z) || defined(T_S) || defined(T_C)
 typedef long long fptr;
 extern void CFORTRAN(int *iopt, int *n, int_t *nnz, int *nrhs, val_t *values, int_t *rowind, int_t *colptr, val_t *b, int *ldb, fptr *f_factors, int_t *info);
-static fptr g_handle[4];
+static TLS fptr g_handle[4];
 static void call_bridge(char *args)
 {
     /* bridge <iopt> <slot>: uses the current context's matrix (1-based copy) and right-hand side */
